@@ -41,7 +41,7 @@ Print Assumptions C09_doc_comments_preserved.
 
 (* the hypotheses are satisfiable by a program with comments in every slot:
      x = [ // a \n 1, // b \n {k: do { // c \n q = 1 // d \n // e \n return q }, // f \n }, // g \n ]   *)
-Definition ex_O : oracles := oracles_impl false op_info_table [(0x3ff0000000000000, "1")]%Z.
+Definition ex_O : oracles := oracles_impl true op_info_table [(0x3ff0000000000000, "1")]%Z.
 Definition ex_commented : expr :=
   EAssign "x" (EList [Cm ["// a"] (ENum (nb 0x3ff0000000000000)) None;
                       Cm ["// b"] (ERec [Cm [] (REntry (KStatic "k")
@@ -54,7 +54,8 @@ Example C09_hypotheses_satisfiable :
   expr_comments ex_commented = ["// a"; "// b"; "// c"; "// d"; "// e"; "// f"; "// g"].
 Proof. vm_compute. repeat split. Qed.
 
-(* REFUTED without the exclusion (known finding C09-opaque-nested): a comment inside a list
+(* REFUTED without the exclusion for the formatter before ff5578e (finding C09-opaque-nested, fixed; the
+   current formatter satisfies C09_fixed_doc_comments_preserved below): a comment inside a list
    that is the operand of a unary operator is dropped for every width and every oracle, by
    formatter.rs as it is (o_keep_nested_comments = false). *)
 Lemma C09_opaque_comment_refuted :
@@ -186,7 +187,7 @@ Proof.
   repeat constructor; try reflexivity; vm_compute; repeat constructor.
 Qed.
 
-(* ---- formatter.rs with fixes/C09-nested-comments.diff (o_keep_nested_comments O = true):
+(* ---- formatter.rs as it is since ff5578e = fixes/C09-nested-comments.diff (o_keep_nested_comments O = true):
    an expression that contains a comment is never printed through expr_to_source ... *)
 Theorem C09_fixed_opaque_exprs_comment_free :
   forall O, o_keep_nested_comments O = true ->
